@@ -423,13 +423,6 @@ def _nodata(ctx) -> None:
                             f"repeated names survive; empty data: no truthiness test on a Vector)")
     ctx.ob("d.no-data", g, "header-only", not problems, "header-only input -> one empty named column per header cell", ho[0].node if ho else g.node,
            message="; ".join(problems))
-    # R-TRUTH (information): truthiness tests on expressions that may be Vectors
-    f = prog.func("vector.Vector.__new__")
-    for n in walk_no_nested(f.node):
-        if isinstance(n, ast.BoolOp) and any(isinstance(v, ast.Name) and v.id == "initial" for v in n.values):
-            ctx.info(f"R-TRUTH: Vector.__new__ tests the truth value of `initial` (`{short(n, 50)}`, line {n.lineno}); if a Vector is passed "
-                     f"as data (Vector(v), Table({{'a': v}})) Vector.__bool__ raises TypeError - not on any path of read_csv any more")
-            break
 
 
 _C = "csv"
